@@ -3,6 +3,7 @@ package hx
 import (
 	"strings"
 
+	"github.com/ChrisTrenkamp/xsel"
 	"github.com/ChrisTrenkamp/xsel/parser"
 	"golang.org/x/net/html"
 )
@@ -94,6 +95,13 @@ func GenHtmlFamily(w *Writer, r *Rng, t Tier) error {
 			}
 			if panicked {
 				impl = "panic"
+			}
+			if _, rerr := xsel.ReadHtml(strings.NewReader(text)); (rerr != nil) != failed && !panicked {
+				if rerr == nil {
+					impl = "accepted-by-ReadHtml-though-the-adapter-reported-an-error"
+				} else {
+					impl = "err"
+				}
 			}
 		}
 		w.Line("html "+domSexp(dom), impl, map[string]interface{}{"k": "html", "fam": fam, "text": text, "n": strings.Count(impl, "(")})
